@@ -271,15 +271,22 @@ pub fn x_from_raw(kind: u16, n: usize, us: &[u16]) -> Vec<f64> {
     }
 }
 
-pub fn alpha_tame(spec: &ModelSpec, us: &[u16], collide: bool) -> Vec<f64> {
+/// collide: 0 = independent values; 1 = exact collision (second parameter of some role equals
+/// the first one of that role: exactly dependent columns for equal kinds); 2 = near collision
+/// (relative offset 10^-U(3,10): a singular value between machine epsilon and a user threshold)
+pub fn alpha_tame(spec: &ModelSpec, us: &[u16], collide: u8) -> Vec<f64> {
     let roles = spec.roles();
     let mut a: Vec<f64> = roles.iter().enumerate().map(|(i, r)| r.tame(us[i % us.len()] as f64 / 65536.0)).collect();
-    if collide {
-        // make the second parameter of some role equal to the first one of that role
+    if collide > 0 {
         for i in 0..a.len() {
             for j in (i + 1)..a.len() {
                 if roles[i] == roles[j] {
-                    a[j] = a[i];
+                    a[j] = if collide == 1 {
+                        a[i]
+                    } else {
+                        let e = 10f64.powf(-3.0 - 7.0 * (us[(i + j) % us.len()] as f64 / 65536.0));
+                        a[i] * (1.0 + e)
+                    };
                     return a;
                 }
             }
@@ -344,10 +351,10 @@ pub fn case_strategy(cfg: CaseCfg) -> impl Strategy<Value = ProblemCase> {
         let (n_pick, s_pick, xkind, us, ys, wclass, epsclass, epsu, flags, collide) = raw;
         let m = spec.m();
         let n = m + pick(n_pick, cfg.max_n - m + 1);
-        let s = 1 + pick(s_pick, cfg.max_s);
+        let s = if s_pick % 3 == 0 { 1 } else { 1 + pick(s_pick, cfg.max_s) };
         let x = x_from_raw(xkind, n, &us);
-        let alpha = alpha_tame(&spec, &us[8..], cfg.collisions && pick(collide, 8) == 0);
-        let mrhs = s > 1 || flags & 1 == 1;
+        let alpha = alpha_tame(&spec, &us[8..], if cfg.collisions { [1u8, 2, 2, 0, 0, 0, 0, 0][pick(collide, 8)] } else { 0 });
+        let mrhs = s > 1 || flags & 0x101 == 0x101;
         let y: Vec<Vec<f64>> = (0..s).map(|c| (0..n).map(|i| ys[(c * 40 + i) % ys.len()]).collect()).collect();
         let w = if cfg.weights { weights_from_raw(wclass, n, &us[16..]) } else { None };
         let eps = if cfg.eps { eps_from_raw(epsclass, epsu, flags & 2 == 2) } else { None };
@@ -369,5 +376,5 @@ pub fn case_strategy(cfg: CaseCfg) -> impl Strategy<Value = ProblemCase> {
 
 /// a list of further tame parameter vectors for update histories
 pub fn alpha_list(spec: &ModelSpec, raws: &[Vec<u16>]) -> Vec<Vec<f64>> {
-    raws.iter().map(|us| alpha_tame(spec, us, false)).collect()
+    raws.iter().map(|us| alpha_tame(spec, us, 0)).collect()
 }
